@@ -3,9 +3,11 @@
   `FmRender`  format64 / format02d / formatOffset against the documented renderings, lengths;
   `FmLoop`    `formatLoop` cut into named pieces, the cursor scans;
   `FmLiteral` literal text and doubled percent signs;
-  `FmRfc`     which branch an iteration takes, symbolic evaluation of the RFC 3339 format.
+  `FmRfc`     which branch an iteration takes, symbolic evaluation of the RFC 3339 format;
+  `FmSafe`    fuel, indices and the scratch buffer for arbitrary format strings.
 -/
 import Cctz.Proofs.FmRender
 import Cctz.Proofs.FmLoop
 import Cctz.Proofs.FmLiteral
 import Cctz.Proofs.FmRfc
+import Cctz.Proofs.FmSafe
